@@ -45,6 +45,17 @@ def run_single(rep, pid, thorough):
     pp.run(rep, pid, cfgs, modes='ctl-unsafe,ctl-safe', module='MultiGen', replay_cmd='replay-multi', class_props=SINGLE_CLASS_PROPS, prefix='multi.')
 
 
+TICK_CLASS_PROPS = dict(CLASS_PROPS, **{'values': ['C16', 'C05'], 'after-unsub': ['C16', 'C06']})
+
+
+def run_ticks(rep, pid, thorough):
+    """the tick-driven forms of throttling / sampling / buffering / windowing (source 2 is the ticker): at most one value per tick window, only source
+    values in source order, silence after unsubscription - every interleaving of values and ticks."""
+    cfgs = [cfg('multi-ticks', MaxSteps=7 if thorough else 6, MaxPerSrc=3, InstSetName='"ticks"'),
+            cfg('multi-ticks-cuts', MaxSteps=6 if thorough else 5, MaxPerSrc=3, Cuts='TRUE', InstSetName='"ticks"')]
+    pp.run(rep, pid, cfgs, modes='ctl-unsafe,ctl-safe', module='MultiGen', replay_cmd='replay-multi', class_props=TICK_CLASS_PROPS, prefix='multi.')
+
+
 REUSE_PROPS = {'reuse-values': ['C12'], 'reuse-torn': ['C12'], 'reuse-sub': ['C12'], 'reuse-closed': ['C12'], 'reuse-late': ['C12']}
 
 
@@ -69,5 +80,7 @@ def run(rep, pid, thorough):
 def replay_case(pid, path):
     import json
     rp = json.load(open(path))['replay']
+    if pid == 'C16':
+        return pp.replay_case(pid, path, replay_cmd='replay-multi', class_props=TICK_CLASS_PROPS)
     props = HO_CLASS_PROPS if rp.get('module') == 'HOGen' else SINGLE_CLASS_PROPS if ((rp.get('case') or {}).get('m') or {}).get('k') == 1 else CLASS_PROPS
     return pp.replay_case(pid, path, replay_cmd='replay-multi', class_props=props)
